@@ -205,3 +205,8 @@ func gen(t *rapid.T) Case {
 func TestSub_strings(t *testing.T) { vk.RunRapid(t, subStrings) }
 
 func TestReplay(t *testing.T) { vk.Replay(t) }
+
+// native coverage-guided fuzzing over the same generator and oracle (thorough tier)
+var subNativeFuzz = vk.Register(&vk.Sub[Case]{Name: "strings_fuzz", Gen: gen, Check: check})
+
+func FuzzSub_strings_fuzz(f *testing.F) { vk.RunFuzz(f, subNativeFuzz) }
